@@ -167,6 +167,32 @@ func init() {
 					w.finish(true)
 				})
 			}
+			// 4b. on-demand heartbeat: answered by the peer, yields a round-trip sample (C19, C12)
+			if next() {
+				label := fmt.Sprintf("api-heartbeat-il%v#%d", il, k)
+				vfBubble(t, label, func() {
+					w := vfNewWorld(vfWorldOpt{Label: label, Trace: tr, A: vfEpCfg{InitTSN: 16, Tag: 0xA6, IL: il}, B: vfEpCfg{InitTSN: 44, Tag: 0xB6, IL: il, Server: true}})
+					if !w.vfConnect() {
+						w.finish(true)
+						return
+					}
+					for _, ep := range []int{0, 1, 0} {
+						w.sleep(37 * time.Millisecond)
+						w.tr.emit(map[string]any{"ev": "api", "ep": ep, "op": "heartbeat", "t": w.now()})
+						w.ep[ep].a.ActiveHeartbeat()
+						w.quiesce()
+						w.sleep(5 * time.Millisecond)
+						w.pump(4)
+						w.sleep(5 * time.Millisecond)
+						w.pump(4)
+					}
+					w.heal(5 * time.Second)
+					w.snapAll = true
+					w.quiesce()
+					w.tr.emit(map[string]any{"ev": "expect", "drained": true, "t": w.now()})
+					w.finish(true)
+				})
+			}
 			// 5. read deadlines swept across the arrival instant
 			if next() {
 				label := fmt.Sprintf("api-readdeadline-il%v#%d", il, k)
